@@ -10,7 +10,8 @@ Lattice: geometries / bases of C09 (checks/splib.py) x relative poses of the 3^6
 have cond(J^-1) <= 1e4 (decided on the ORACLE's matrix).  Two evaluation levels:
   full  all clauses below on 6 wrench-basis vectors + one fixed generic + one seed-generic wrench
   lite  the Jacobian clauses and the space-frame statics of the generic wrench
-Quick: 6 geometries x {I, B1} x all 729 poses (full) + the same geometries at the seed-generic base BS (lite).
+Quick: 6 geometries x {I, B1} x all 729 poses (full) + the same geometries at the seed-generic base BS (lite) + the one
+seed-generic geometry 'seedgeo<seed>' at B1 (lite).
 Thorough: quick geometries x {I, B1, BS} x {s0, s0.4} x 729 (full); all 432 geometries x {I, B1, BS} x the 81-pose
 sub-grid (full) and x 729 poses (lite).
 
@@ -59,14 +60,15 @@ def wrenches(seed):
     return W
 
 
-def plan(tier):
+def plan(tier, seed=0):
     """-> list of blocks (gid, base, spin, level, poses)"""
     q = list(splib.QUICK_GIDS)
+    sg = "seedgeo%d" % seed
     if tier != "thorough":
         return ([(g, b, "s0", "full", ALL) for g in q for b in ("I", "B1")] +
-                [(g, "BS", "s0", "lite", ALL) for g in q])
+                [(g, "BS", "s0", "lite", ALL) for g in q] + [(sg, "B1", "s0", "lite", ALL)])
     allg = [g.gid for g in splib.family()]
-    return ([(g, b, s, "full", ALL) for g in q for b in ("I", "B1", "BS") for s in ("s0", "s0.4")] +
+    return ([(g, b, s, "full", ALL) for g in q + [sg] for b in ("I", "B1", "BS") for s in ("s0", "s0.4")] +
             [(g, b, "s0", "full", splib.FK_SUBGRID) for g in allg for b in ("I", "B1", "BS")] +
             [(g, b, "s0", "lite", ALL) for g in allg for b in ("I", "B1", "BS")])
 
@@ -194,7 +196,7 @@ def _offsets(blocks):
 
 def work(p):
     acc = lattice.Acc(max_viol=400)
-    blocks = plan(p["tier"])
+    blocks = plan(p["tier"], p["seed"])
     offs = _offsets(blocks)
     seed = p["seed"]
     done = p["lo"]
@@ -292,7 +294,7 @@ def warm():
 
 
 def run(ctx):
-    blocks = plan(ctx.tier)
+    blocks = plan(ctx.tier, ctx.seed)
     offs = _offsets(blocks)
     total = int(offs[-1])
     budget = float(os.environ.get("VERIF_BUDGET_S", "0") or 0) or (840.0 if ctx.tier == "thorough" else 300.0)
